@@ -61,16 +61,16 @@ pub struct FaultyBroker {
     net: Arc<Net>,
     ctl: Arc<CrashCtl>,
     /// successful commits: (range list as string, migration epoch)
-    pub commits: Mutex<Vec<(String, u64)>>,
+    pub commits: Arc<Mutex<Vec<(String, u64)>>>,
     /// successful commits for the ordering clause: (trace index, dst proxy, src proxy, cluster epoch after the commit)
     pub commit_marks: Mutex<Vec<(usize, String, String, u64)>>,
     /// every commit request that reached the broker (for stale replays)
-    pub sent: Mutex<Vec<MigrationTaskMeta>>,
+    pub sent: Arc<Mutex<Vec<MigrationTaskMeta>>>,
 }
 
 impl FaultyBroker {
     pub fn new(svc: Arc<MemBrokerService>, net: Arc<Net>, ctl: Arc<CrashCtl>) -> FaultyBroker {
-        FaultyBroker { svc, net, ctl, commits: Mutex::new(vec![]), commit_marks: Mutex::new(vec![]), sent: Mutex::new(vec![]) }
+        FaultyBroker { svc, net, ctl, commits: Arc::new(Mutex::new(vec![])), commit_marks: Mutex::new(vec![]), sent: Arc::new(Mutex::new(vec![])) }
     }
 
     async fn gate(&self, kind: &str, to: &str) -> Result<Option<Fault>, ()> {
@@ -91,7 +91,7 @@ impl MetaDataBroker for FaultyBroker {
         Box::pin(
             async move {
                 let f = self.gate("get_cluster_names", "-").await.ok().flatten();
-                if matches!(f, Some(Fault::DropRequest) | Some(Fault::DropReply)) {
+                if matches!(f, Some(Fault::DropRequest) | Some(Fault::DropReply) | Some(Fault::DelayShort) | Some(Fault::DelayLong)) {
                     return vec![Err(MetaDataBrokerError::Io(io_err()))];
                 }
                 match self.svc.get_cluster_names(None, None).await {
@@ -107,7 +107,7 @@ impl MetaDataBroker for FaultyBroker {
     fn get_cluster<'s>(&'s self, name: ClusterName) -> Pin<Box<dyn Future<Output = Result<Option<Cluster>, MetaDataBrokerError>> + Send + 's>> {
         Box::pin(async move {
             let f = self.gate("get_cluster", name.as_str()).await.ok().flatten();
-            if matches!(f, Some(Fault::DropRequest) | Some(Fault::DropReply)) {
+            if matches!(f, Some(Fault::DropRequest) | Some(Fault::DropReply) | Some(Fault::DelayShort) | Some(Fault::DelayLong)) {
                 return Err(MetaDataBrokerError::Io(io_err()));
             }
             self.svc.get_cluster_by_name(name.as_str()).await.map_err(|_| MetaDataBrokerError::RequestFailed)
@@ -118,7 +118,7 @@ impl MetaDataBroker for FaultyBroker {
         Box::pin(
             async move {
                 let f = self.gate("get_proxy_addresses", "-").await.ok().flatten();
-                if matches!(f, Some(Fault::DropRequest) | Some(Fault::DropReply)) {
+                if matches!(f, Some(Fault::DropRequest) | Some(Fault::DropReply) | Some(Fault::DelayShort) | Some(Fault::DelayLong)) {
                     return vec![Err(MetaDataBrokerError::Io(io_err()))];
                 }
                 match self.svc.get_proxy_addresses(None, None).await {
@@ -134,7 +134,7 @@ impl MetaDataBroker for FaultyBroker {
     fn get_proxy<'s>(&'s self, address: String) -> Pin<Box<dyn Future<Output = Result<Option<Proxy>, MetaDataBrokerError>> + Send + 's>> {
         Box::pin(async move {
             let f = self.gate("get_proxy", &address).await.ok().flatten();
-            if matches!(f, Some(Fault::DropRequest) | Some(Fault::DropReply)) {
+            if matches!(f, Some(Fault::DropRequest) | Some(Fault::DropReply) | Some(Fault::DelayShort) | Some(Fault::DelayLong)) {
                 return Err(MetaDataBrokerError::Io(io_err()));
             }
             self.svc.get_proxy_by_address(&address).await.map_err(|_| MetaDataBrokerError::RequestFailed)
@@ -145,6 +145,14 @@ impl MetaDataBroker for FaultyBroker {
         Box::pin(async move {
             let f = self.gate("add_failure", &address).await.ok().flatten();
             if matches!(f, Some(Fault::DropRequest)) {
+                return Err(MetaDataBrokerError::Io(io_err()));
+            }
+            if let Some(d) = f.and_then(|f| f.delay()) {
+                let svc = self.svc.clone();
+                tokio::spawn(async move {
+                    tokio::time::sleep(d).await;
+                    let _ = svc.add_failure(address, reporter_id).await;
+                });
                 return Err(MetaDataBrokerError::Io(io_err()));
             }
             let r = self.svc.add_failure(address.clone(), reporter_id.clone()).await;
@@ -162,7 +170,7 @@ impl MetaDataBroker for FaultyBroker {
         Box::pin(
             async move {
                 let f = self.gate("get_failures", "-").await.ok().flatten();
-                if matches!(f, Some(Fault::DropRequest) | Some(Fault::DropReply)) {
+                if matches!(f, Some(Fault::DropRequest) | Some(Fault::DropReply) | Some(Fault::DelayShort) | Some(Fault::DelayLong)) {
                     return vec![Err(MetaDataBrokerError::Io(io_err()))];
                 }
                 match self.svc.get_failures().await {
@@ -179,7 +187,7 @@ impl MetaDataBroker for FaultyBroker {
         Box::pin(
             async move {
                 let f = self.gate("get_failed_proxies", "-").await.ok().flatten();
-                if matches!(f, Some(Fault::DropRequest) | Some(Fault::DropReply)) {
+                if matches!(f, Some(Fault::DropRequest) | Some(Fault::DropReply) | Some(Fault::DelayShort) | Some(Fault::DelayLong)) {
                     return vec![Err(MetaDataBrokerError::Io(io_err()))];
                 }
                 match self.svc.get_failed_proxies().await {
@@ -202,6 +210,14 @@ impl MetaManipulationBroker for FaultyBroker {
             if matches!(f, Some(Fault::DropRequest)) {
                 return Err(MetaManipulationBrokerError::Io(io_err()));
             }
+            if let Some(d) = f.and_then(|f| f.delay()) {
+                let svc = self.svc.clone();
+                tokio::spawn(async move {
+                    tokio::time::sleep(d).await;
+                    let _ = svc.replace_failed_proxy(failed_proxy_address).await;
+                });
+                return Err(MetaManipulationBrokerError::Io(io_err()));
+            }
             let r = self.svc.replace_failed_proxy(failed_proxy_address.clone()).await;
             if matches!(f, Some(Fault::Duplicate)) {
                 let _ = self.svc.replace_failed_proxy(failed_proxy_address).await;
@@ -222,6 +238,18 @@ impl MetaManipulationBroker for FaultyBroker {
             let epoch = meta.slot_range.tag.get_migration_meta().map(|m| m.epoch).unwrap_or(0);
             let f = self.gate("commit_migration", &key).await.ok().flatten();
             if matches!(f, Some(Fault::DropRequest)) {
+                return Err(MetaManipulationBrokerError::Io(io_err()));
+            }
+            if let Some(d) = f.and_then(|f| f.delay()) {
+                // the commit request is still in flight when the coordinator gives up on it
+                let (svc, commits, sent) = (self.svc.clone(), self.commits.clone(), self.sent.clone());
+                tokio::spawn(async move {
+                    tokio::time::sleep(d).await;
+                    sent.lock().push(meta.clone());
+                    if svc.commit_migration(meta).await.is_ok() {
+                        commits.lock().push((key, epoch));
+                    }
+                });
                 return Err(MetaManipulationBrokerError::Io(io_err()));
             }
             self.sent.lock().push(meta.clone());
@@ -341,7 +369,7 @@ const FAULT_KINDS: [&str; 10] = [
 ];
 
 fn fault_kind() -> impl Strategy<Value = Fault> {
-    prop_oneof![Just(Fault::DropRequest), Just(Fault::DropReply), Just(Fault::Duplicate)]
+    prop_oneof![2 => Just(Fault::DropRequest), 2 => Just(Fault::DropReply), 2 => Just(Fault::Duplicate), 1 => Just(Fault::DelayShort), 2 => Just(Fault::DelayLong)]
 }
 
 fn step() -> impl Strategy<Value = Step> {
@@ -422,24 +450,85 @@ pub fn reference_steps() -> Vec<Step> {
     ]
 }
 
+/// second reference script: a proxy dies, is detected by both coordinators, failed over and replaced
+pub fn reference_steps_failover() -> Vec<Step> {
+    vec![
+        Step::Create { chunks: 2 },
+        Step::Sync { c: 0 },
+        Step::Kill { p: 0 },
+        Step::Detect { c: 0 },
+        Step::Detect { c: 1 },
+        Step::Handle { c: 0 },
+        Step::Sync { c: 0 },
+        Step::Sync { c: 1 },
+    ]
+}
+
+/// third reference script: scale-in of a two-chunk cluster under migration_limit 1
+pub fn reference_steps_scale_down() -> Vec<Step> {
+    vec![
+        Step::Create { chunks: 2 },
+        Step::Sync { c: 0 },
+        Step::ScaleDown { k: 0 },
+        Step::Sync { c: 0 },
+        Step::Pause { ms: 200 },
+        Step::Mig { c: 0 },
+        Step::Sync { c: 0 },
+        Step::Pause { ms: 200 },
+        Step::Mig { c: 1 },
+        Step::Sync { c: 0 },
+    ]
+}
+
 pub fn enumerated_cases() -> Vec<CCase> {
     let mut out = vec![];
-    let base = CCase { hosts: vec![2, 2, 2], migration_limit: 0, compress: false, steps: reference_steps(), faults: vec![], crash: None };
-    // every single fault: kind x occurrence (to anybody) x fault type
-    for kind in 0..FAULT_KINDS.len() as u8 {
-        for occurrence in 1..=8u8 {
-            for fault in [Fault::DropRequest, Fault::DropReply, Fault::Duplicate] {
+    let bases = [
+        CCase { hosts: vec![2, 2, 2], migration_limit: 0, compress: false, steps: reference_steps(), faults: vec![], crash: None },
+        CCase { hosts: vec![2, 2, 2], migration_limit: 0, compress: true, steps: reference_steps_failover(), faults: vec![], crash: None },
+        CCase { hosts: vec![2, 2, 2], migration_limit: 1, compress: false, steps: reference_steps_scale_down(), faults: vec![], crash: None },
+    ];
+    for (bi, base) in bases.iter().enumerate() {
+        // every single fault: kind x occurrence (to anybody) x fault type
+        for kind in 0..FAULT_KINDS.len() as u8 {
+            for occurrence in 1..=(if bi == 0 { 8u8 } else { 5u8 }) {
+                for fault in [Fault::DropRequest, Fault::DropReply, Fault::Duplicate, Fault::DelayShort, Fault::DelayLong] {
+                    let mut c = base.clone();
+                    c.faults = vec![FaultSpec { kind, target: 255, occurrence, fault }];
+                    out.push(c);
+                }
+            }
+        }
+        // every single crash point: step x call number
+        for s in 1..base.steps.len() as u8 {
+            for call in 1..=(if bi == 0 { 24u8 } else { 16u8 }) {
                 let mut c = base.clone();
-                c.faults = vec![FaultSpec { kind, target: 255, occurrence, fault }];
+                c.crash = Some((s, call));
                 out.push(c);
             }
         }
     }
-    // every single crash point: step x call number
-    for s in 1..base.steps.len() as u8 {
-        for call in 1..=24u8 {
+    out
+}
+
+/// thorough tier: every PAIR of faults (kind x occurrence 1..3 x {drop request, drop reply, delay}) of the first reference script
+pub fn enumerated_pairs() -> Vec<CCase> {
+    let base = CCase { hosts: vec![2, 2, 2], migration_limit: 0, compress: false, steps: reference_steps(), faults: vec![], crash: None };
+    let mut singles = vec![];
+    for kind in 0..FAULT_KINDS.len() as u8 {
+        for occurrence in 1..=3u8 {
+            for fault in [Fault::DropRequest, Fault::DropReply, Fault::DelayLong] {
+                singles.push(FaultSpec { kind, target: 255, occurrence, fault });
+            }
+        }
+    }
+    let mut out = vec![];
+    for i in 0..singles.len() {
+        for j in i + 1..singles.len() {
+            if singles[i].kind == singles[j].kind && singles[i].occurrence == singles[j].occurrence {
+                continue;
+            }
             let mut c = base.clone();
-            c.crash = Some((s, call));
+            c.faults = vec![singles[i].clone(), singles[j].clone()];
             out.push(c);
         }
     }
@@ -714,8 +803,13 @@ async fn run(case: &CCase, obs: &mut Obs) -> Result<(), Fail> {
     if had_failover {
         obs.class("script:failover");
     }
-    // faults stop: clean cycles until converged
+    // faults stop: clean cycles until converged (messages still in flight land first)
     cw.world.net.gate.faults.lock().clear();
+    if hits.iter().any(|(_, _, _, f)| f.delay().is_some()) {
+        tokio::time::sleep(Duration::from_millis(2500)).await;
+        cw.epochs("after the delayed messages landed").await?;
+        obs.class("delayed-message-delivered-late");
+    }
     const K: usize = 6;
     let mut converged_after = None;
     let mut last_diag = String::new();
@@ -1143,13 +1237,13 @@ pub fn check(case: &CCase, obs: &mut Obs) -> Result<(), Fail> {
     r
 }
 
-pub const RULE: &str = "a world with the real in-memory broker, 6..12 REAL proxies with Redis stand-ins and coordinator rounds built from the REAL components (hook H1: ProxyMetaRespSynchronizer, ParMigrationStateSynchronizer, ParFailureDetector, ParFailureHandler with the real retrievers/senders/checkers/committers), one or two coordinators, sync and migration rounds also concurrently; scripts of 4..22 steps: create, scale out (+migrate), scale down, rounds, proxy restart with empty state, proxy kill, pauses; fault plan of <=3 faults addressed by call signature x occurrence (broker calls get_proxy/get_proxy_addresses/commit/replace/get_failures/add_failure, SETREPL/SETCLUSTER/INFOMGR/PING to a proxy): drop request, drop reply (effect happens, caller sees an error), duplicate; optional coordinator crash = the round future is dropped at its n-th outgoing call; [enumerated] EVERY single fault (10 call kinds x occurrences 1..8 x 3 fault types) and EVERY single crash point (step x call 1..24) of a reference script; oracle: after every step no proxy's epoch decreases except across its own restart; no migration is committed twice; after the faults stop, clean cycles until every reachable non-failed proxy holds the broker's view (epoch, replication roles, routing probes) and no finished migration is left uncommitted - a violation only if still not converged after 24 cycles with the last 6 changing nothing; non-trivial = a fault hit or a crash happened and the script contains a migration or failover; distinct = hash of the case";
+pub const RULE: &str = "a world with the real in-memory broker, 6..12 REAL proxies with Redis stand-ins and coordinator rounds built from the REAL components (hook H1: ProxyMetaRespSynchronizer, ParMigrationStateSynchronizer, ParFailureDetector, ParFailureHandler with the real retrievers/senders/checkers/committers), one or two coordinators, sync and migration rounds also concurrently; scripts of 4..22 steps: create, scale out (+migrate), scale down, rounds, proxy restart with empty state, proxy kill, pauses; fault plan of <=3 faults addressed by call signature x occurrence (broker calls get_proxy/get_proxy_addresses/commit/replace/get_failures/add_failure, SETREPL/SETCLUSTER/INFOMGR/PING to a proxy): drop request, drop reply (effect happens, caller sees an error), duplicate, delay by 20 ms / 2 s of virtual time (the caller sees an error now, the request lands later: reordered / stale delivery); optional coordinator crash = the round future is dropped at its n-th outgoing call; [enumerated] EVERY single fault (10 call kinds x occurrences 1..8 (1..5) x 5 fault types) and EVERY single crash point (step x call 1..24 (1..16)) of three reference scripts (scale-out with migration; proxy death detected by two coordinators, failover and replacement; scale-in under migration_limit 1); [enumerated-pairs, thorough] every pair of faults (kind x occurrence 1..3 x {drop request, drop reply, 2 s delay}) of the first script; oracle: after every step no proxy's epoch decreases except across its own restart; no migration is committed twice; after the faults stop, clean cycles until every reachable non-failed proxy holds the broker's view (epoch, replication roles, routing probes) and no finished migration is left uncommitted - a violation only if still not converged after 24 cycles with the last 6 changing nothing; non-trivial = a fault hit or a crash happened and the script contains a migration or failover; distinct = hash of the case";
 
 pub fn run_prop(ctx: &Ctx, findings: &Findings) -> PropReport {
     let mut subs = vec![];
     if let Some(path) = &ctx.replay {
         let v: serde_json::Value = serde_json::from_str(&std::fs::read_to_string(path).expect("replay file")).expect("json");
-        for name in ["scripts", "enumerated"] {
+        for name in ["scripts", "enumerated", "enumerated-pairs"] {
             if let Some(r) = replay_case::<CCase>(ctx, findings, name, &v, &check) {
                 subs.push(r);
             }
@@ -1160,6 +1254,9 @@ pub fn run_prop(ctx: &Ctx, findings: &Findings) -> PropReport {
         let cases = enumerated_cases();
         let exhaustive = true;
         subs.push(drive_enum(ctx, findings, "enumerated", RULE, cases, exhaustive, &check));
+        if ctx.tier == Tier::Thorough {
+            subs.push(drive_enum(ctx, findings, "enumerated-pairs", RULE, enumerated_pairs(), true, &check));
+        }
     }
     PropReport {
         level: "fault_enumeration",
